@@ -74,6 +74,9 @@ def drive(base, resume, comm=None):
         kw["fresh_stochasticity"] = lambda i: i == 0
     elif base.get("fresh") == "alt":
         kw["fresh_stochasticity"] = lambda i: i % 2 == 0
+    if base.get("initial_position"):
+        with ift.random.Context(4711):
+            kw["initial_position"] = ift.from_random(lh.domain) * 0.3
     if base["constants"]:
         kw["constants"] = list(base["constants"])
     if base["point_estimates"]:
@@ -117,7 +120,7 @@ def gen_base(rng, tier):
          "constants": [rng.choice(keys)] if rng.random() < 0.25 else [],
          "point_estimates": [rng.choice(keys)] if rng.random() < 0.25 else [],
          "bufsize": rng.choice([1, 64, 4096, 8192, None]), "nranks": 1,
-         "fresh": rng.choice(["true", "true", "only0", "alt"])}
+         "fresh": rng.choice(["true", "true", "only0", "alt"]), "initial_position": rng.random() < 0.3}
     if tier == "thorough" and rng.random() < 0.25:
         b["nranks"] = rng.choice([2, 3])
         b["sched_seed"] = rng.randrange(10**6)
